@@ -62,7 +62,7 @@ def network(draw, tier):
         motifs.append(["clique3", [0, 1, 2]])
         n = 3
     n += draw(st.sampled_from([0, 0, 0, 1, 2]))
-    relabel = draw(st.booleans())
+    relabel = draw(st.sampled_from([False, True, "big"]))
     phis = [draw(st.floats(0.3, 0.95))] + draw(st.lists(st.one_of(st.sampled_from([0.0, 1.0, 0.5, 0.7]), st.floats(0.0, 1.0)), min_size=0, max_size=3))
     phis = list(draw(st.permutations(phis)))
     its = draw(st.sampled_from([0, 1, 2, 5, 12, 25, 25, 40]))
@@ -79,7 +79,7 @@ def strategy(tier):
 
 def build(case):
     import networkx as nx
-    lab = (lambda v: 3 * v + 2) if case["relabel"] else (lambda v: v)
+    lab = {True: (lambda v: 3 * v + 2), False: (lambda v: v), "big": (lambda v: 5000 - 7 * v)}[case["relabel"]]
     G = nx.Graph()
     G.add_nodes_from(lab(v) for v in range(case["n"]))
     mlist = []
